@@ -63,7 +63,19 @@ def harness_hash():
 
 def build_dir():
     d = os.path.join(BUILD, hashlib.sha256((src_hash() + harness_hash()).encode()).hexdigest()[:20])
-    os.makedirs(d, exist_ok=True)
+    if "bd" not in _src_hash_cache:
+        os.makedirs(d, exist_ok=True)
+        os.utime(d, None)
+        # disk space is limited: keep only the most recently used build directories
+        try:
+            import shutil
+            dirs = sorted((os.path.join(BUILD, x) for x in os.listdir(BUILD) if os.path.isdir(os.path.join(BUILD, x))),
+                          key=os.path.getmtime, reverse=True)
+            for old in dirs[5:]:
+                shutil.rmtree(old, ignore_errors=True)
+        except OSError:
+            pass
+        _src_hash_cache["bd"] = d
     return d
 
 
